@@ -153,6 +153,14 @@ structure Graph where
   still removed from those flows in the DB and its children stand down (`true`, repaired); or nothing at all
   happens for it (`false`, code as found) -/
   rmAlwaysDb : Bool := false
+  /-- behaviour flag (probed from the live code; C28): `_set_prereqs_tdef` hands back -- and `cylc trigger` then
+  triggers -- the new object even when the pool already holds a proxy of that instance (`true`, code as found);
+  `false`: such an object is dropped (repaired) -/
+  triggerUnpooled : Bool := true
+  /-- behaviour flag (probed from the live code; C29): `_load_historical_outputs` also inserts the DB rows of a proxy
+  whose flows overlap an existing row of the instance without being equal to any (`true`, repaired); `false`: only
+  when no row overlaps (code as found) -/
+  dbRowPerFlowSet : Bool := false
   deriving Repr, Inhabited
 
 /-- number of instances + 2: bounds the `spawn_task` ↔ `spawn_on_all_outputs` recursion -/
@@ -532,7 +540,8 @@ def loadDbTaskProxy (g : Graph) (s : State) (name : String) (p : Int) (flows : L
       let seen := info.filter fun e => !(interF flows e.2).isEmpty
       let x := seen.foldl (fun (y : Proxy) e =>
           e.1.foldl (fun (z : Proxy) m => if z.done.contains m then z else { z with done := z.done ++ [m] }) y) x
-      if seen.isEmpty then (dbAddNewFlowRows s x, some x) else (s, some x)
+      if seen.isEmpty || (g.dbRowPerFlowSet && !(info.any fun e => e.2 == flows)) then (dbAddNewFlowRows s x, some x)
+      else (s, some x)
 
 /-- children of an output of an instance (`graph_children`) -/
 def childrenOfInst (g : Graph) (name : String) (p : Int) (out : String) : List Child :=
@@ -1433,6 +1442,7 @@ def respawnOne (g : Graph) (group : List (Int × String)) (completed : Completed
         match st.get? k.1 k.2 with
         | some y => queueOrTrigger st y
         | none => st
+      else if !g.triggerUnpooled then st
       else
         -- the object is not the pooled proxy: it is triggered all the same
         { st with phantoms := st.phantoms ++ [{ (x.reset (status := some .waiting)) with manual := true, wjp := true }] }
